@@ -36,10 +36,15 @@ class Undefined(object):
 UNDEF = Undefined()
 
 
+def fn_names_of_contract(spec):
+    return set(spec.havoc) | set(spec.scratch)
+
+
 class View(object):
     """Attribute view over a dict (locals / args) for contract lambdas."""
 
     def __init__(self, d, **extra):
+        object.__setattr__(self, "_a", extra.pop("_alias", None) or {})
         object.__setattr__(self, "_d", d)
         object.__setattr__(self, "_x", extra)
 
@@ -48,15 +53,16 @@ class View(object):
         if name in x:
             return x[name]
         d = object.__getattribute__(self, "_d")
+        name = object.__getattribute__(self, "_a").get(name, name)
         if name in d:
             return d[name]
         raise Unsupported("contract refers to unknown local/argument '%s'" % name)
 
     def __setattr__(self, name, value):
-        self._d[name] = value
+        self._d[self._a.get(name, name)] = value
 
     def has(self, name):
-        return name in self._d or name in self._x
+        return self._a.get(name, name) in self._d or name in self._x
 
 
 class Env(object):
@@ -543,6 +549,51 @@ class Interp(object):
                 cur = self.get_attr(cur, p, node)
         return cur, parts[-1]
 
+    def loop_aliases(self, st, env, spec, targets, stored):
+        fn_names = set(a.arg for a in ast.walk(env.finfo.node) if isinstance(a, ast.arg))
+        for nd in ast.walk(env.finfo.node):
+            if isinstance(nd, ast.Name) and isinstance(nd.ctx, ast.Store):
+                fn_names.add(nd.id)
+        named = set(spec.havoc) | set(spec.scratch)
+        missing = [nm for nm in spec.havoc if nm not in fn_names]
+        if not missing:
+            return {}
+        referenced = set()
+        for sub in st.body:
+            for nd in ast.walk(sub):
+                if isinstance(nd, ast.Name):
+                    referenced.add(nd.id)
+
+        def family(v):
+            if isinstance(v, bool) or (ops.is_sym(v) and z3.is_bool(v)):
+                return "flag"
+            if isinstance(v, (PyList, list)) or hasattr(v, "arr") or hasattr(v, "items") and not isinstance(v, (dict, PyDict)):
+                return "list"
+            if v is None or isinstance(v, Opt) or is_number(v):
+                return "number"
+            return "other"
+
+        def kind_family(kind):
+            if kind in ("bool", "forked-bool"):
+                return "flag"
+            if kind in ("real", "int", "optreal"):
+                return "number"
+            if callable(kind):
+                return "list"
+            return "other"
+        alias = {}
+        for nm in missing:
+            cands = [c for c in sorted(referenced) if c not in named and c not in targets and c in env.locals
+                     and c not in fn_names_of_contract(spec) and env.locals[c] is not UNDEF
+                     and family(env.locals[c]) == kind_family(spec.havoc[nm]) and c not in alias.values()]
+            # a candidate must be live across iterations: assigned or mutated in the body
+            cands = [c for c in cands if c in stored or kind_family(spec.havoc[nm]) == "list"]
+            if len(cands) != 1:
+                raise Unsupported("loop contract of %s names local '%s', which the function no longer has, and %d locals could "
+                                  "stand for it (contract/code shape mismatch)" % (env.finfo.qualname, nm, len(cands)), st)
+            alias[nm] = cands[0]
+        return alias
+
     def symbolic_for(self, st, env, seq, spec, ordinal):
         ctx = self.ctx
         fq = env.finfo.qualname
@@ -550,11 +601,19 @@ class Interp(object):
         lname = "%s/loop%d" % (fq, ordinal)
         frame = self.frames[-1] if self.frames else getattr(self, "frame", None)
 
+        stored0 = set()
+        for sub in st.body:
+            for nd in ast.walk(sub):
+                if isinstance(nd, ast.Name) and isinstance(nd.ctx, ast.Store):
+                    stored0.add(nd.id)
+        targets0 = set(nd.id for nd in ast.walk(st.target) if isinstance(nd, ast.Name))
+        alias = self.loop_aliases(st, env, spec, targets0, stored0)
+
         def inv(k):
-            return spec.invariant(View(env.locals, f=frame, n=n, seq=seq), k)
+            return spec.invariant(View(env.locals, _alias=alias, f=frame, n=n, seq=seq), k)
 
         if spec.entry is not None:
-            for item in spec.entry(View(env.locals, f=frame, n=n, seq=seq)):
+            for item in spec.entry(View(env.locals, _alias=alias, f=frame, n=n, seq=seq)):
                 cname, goal = item[0], item[1]
                 using = [_b(h) for h in item[2]] if len(item) > 2 else None
                 ctx.oblige("%s/%s" % (fq, cname), _b(goal), {"line": st.lineno, "props": list(getattr(spec, "check_props", ()))},
@@ -566,6 +625,10 @@ class Interp(object):
                 if isinstance(nd, ast.Name) and isinstance(nd.ctx, ast.Store):
                     stored.add(nd.id)
         targets = set(nd.id for nd in ast.walk(st.target) if isinstance(nd, ast.Name))
+        # a local the contract names but the function never assigns has been renamed: bind the contract's name to the one
+        # local referenced in the loop body, defined before the loop, unknown to the contract and of the same kind of
+        # value (flag / number / list).  Anything ambiguous stays a contract/code mismatch (undecided).
+        stored = set(stored) - set(alias.values())
         # locals the body assigns that the loop contract does not name are treated as per-iteration temporaries
         # (scratch): undefined at the start of every iteration and after the loop.  Sound: a read before the assignment,
         # or after the loop, is an unsupported construct (undecided), never a silent value.
@@ -573,7 +636,7 @@ class Interp(object):
         mode = ctx.choose(2, "loop")
         # havoc
         for nm, kind in spec.havoc.items():
-            env.locals[nm] = self.havoc_value(kind, "%s.%s" % (lname.split("/")[-1], nm))
+            env.locals[alias.get(nm, nm)] = self.havoc_value(kind, "%s.%s" % (lname.split("/")[-1], nm))
         allowed = set()
         for path in spec.havoc_fields:
             if path.endswith(".*"):
@@ -596,7 +659,7 @@ class Interp(object):
             ctx.assume(_b(inv(k)))
             ctx.ghost[lname + ".k"] = k
             if spec.reveal is not None:
-                for eqn in spec.reveal(View(env.locals, f=frame, n=n, seq=seq), k):
+                for eqn in spec.reveal(View(env.locals, _alias=alias, f=frame, n=n, seq=seq), k):
                     ctx.assume(_b(eqn), definitional=True)
             self.assign(st.target, seq.get(k), env)
             w0 = len(ctx.writes)
@@ -610,7 +673,7 @@ class Interp(object):
                 return
             self.check_loop_writes(w0, allowed, fq, ordinal, st)
             if spec.check is not None:
-                for item in spec.check(View(env.locals, f=frame, n=n, seq=seq, pre=View(pre_locals)), k):
+                for item in spec.check(View(env.locals, _alias=alias, f=frame, n=n, seq=seq, pre=View(pre_locals, _alias=alias)), k):
                     cname, goal = item[0], item[1]
                     using = [_b(h) for h in item[2]] if len(item) > 2 else None
                     ctx.oblige("%s/%s" % (fq, cname), _b(goal), {"line": st.lineno, "props": list(getattr(spec, "check_props", ()))},
@@ -782,8 +845,22 @@ class Interp(object):
             return self.eval(node.body, env)
         return self.eval(node.orelse, env)
 
+    _PURE_NODES = (ast.Compare, ast.BoolOp, ast.UnaryOp, ast.Name, ast.Attribute, ast.Constant, ast.Load, ast.And, ast.Or,
+                   ast.Not, ast.Is, ast.IsNot, ast.Eq, ast.NotEq, ast.Lt, ast.LtE, ast.Gt, ast.GtE, ast.In, ast.NotIn,
+                   ast.USub, ast.UAdd, ast.BinOp, ast.Add, ast.Sub, ast.Mult, ast.IfExp, ast.Subscript, ast.Tuple)
+
+    def ex_GeneratorExp(self, node, env):
+        """A generator expression is evaluated eagerly like the list comprehension with the same text.  That differs from
+        Python only through side effects or exceptions of elements a consumer would not have asked for (any / all stop
+        early), so the element and filter expressions must be syntactically free of calls."""
+        for part in [node.elt] + [c for g in node.generators for c in g.ifs]:
+            for nd in ast.walk(part):
+                if not isinstance(nd, self._PURE_NODES):
+                    raise Unsupported("generator expression with a %s in its element" % type(nd).__name__, node)
+        return self.ex_ListComp(node, env)
+
     def ex_ListComp(self, node, env):
-        if len(node.generators) != 1 or node.generators[0].ifs:
+        if len(node.generators) != 1:
             raise Unsupported("list comprehension shape", node)
         gen = node.generators[0]
         it = self.as_iterable(self.eval(gen.iter, env), node)
@@ -792,10 +869,13 @@ class Interp(object):
             sub = Env(env.finfo, env.module, dict(env.locals))
             for item in it:
                 self.assign(gen.target, item, sub)
-                out.append(self.eval(node.elt, sub))
+                if all(self.truth(self.eval(c, sub), c) for c in gen.ifs):
+                    out.append(self.eval(node.elt, sub))
             r = PyList(out)
             r.fresh = True
             return r
+        if gen.ifs:
+            raise Unsupported("filtered comprehension over a symbolic sequence", node)
         # symbolic map: lazily evaluated element-wise (element expression must be pure)
         interp = self
 
@@ -864,7 +944,12 @@ class Interp(object):
                 return d
             raise PyExc("AttributeError", ("%s has no attribute %s" % (base.clsname, name),))
         if isinstance(base, Model):
-            return base.get_attr(self, name, node)
+            try:
+                return base.get_attr(self, name, node)
+            except Unsupported:
+                # not a data attribute the model knows: a reference to the method of that name (`g = match.group`); it can
+                # only be called -- the call goes through the model's call_method like a direct call
+                return _ModelMethod(base, name)
         if isinstance(base, ExtModule):
             return self.externals.module_attr(self, base, name, node)
         if isinstance(base, ClassRef):
@@ -1633,6 +1718,29 @@ def _bi_sorted(interp, args, kwargs, node):
     raise Unsupported("sorted", node)
 
 
+def _bi_anyall(is_any):
+    def fn(interp, args, kwargs, node):
+        seq = args[0]
+        if isinstance(seq, SymSeq):
+            # uniform element: decide from one arbitrary index
+            k = interp.ctx.int("anyall.k", record=False)
+            e = interp.truth_expr(seq.get(k), node)
+            c = e if isinstance(e, bool) else as_const_bool(e)
+            if c is None:
+                raise Unsupported("%s() over a symbolic sequence with non-constant elements" % ("any" if is_any else "all"), node)
+            n = seq.length
+            nonempty = (n > 0)
+            if is_any:
+                return nonempty if c else False
+            return True if c else (n == 0 if isinstance(n, int) else ops.Not(nonempty))
+        items = interp.as_concrete_items(seq, node)
+        vals = [interp.truth_expr(v, node) for v in items]
+        if is_any:
+            return ops.Or(*vals) if vals else False
+        return ops.And(*vals) if vals else True
+    return fn
+
+
 BUILTINS = {
     "len": _Builtin("len", _bi_len),
     "range": _Builtin("range", _bi_range),
@@ -1649,6 +1757,8 @@ BUILTINS = {
     "type": _Builtin("type", _bi_type),
     "bytearray": _Builtin("bytearray", _bi_bytearray),
     "sorted": _Builtin("sorted", _bi_sorted),
+    "any": _Builtin("any", _bi_anyall(True)),
+    "all": _Builtin("all", _bi_anyall(False)),
     "max": _Builtin("max", _bi_minmax(True)),
     "min": _Builtin("min", _bi_minmax(False)),
     "object": ExtClass("object"),
